@@ -61,6 +61,21 @@ func (k *Keeper) GetAVSMinimumSelfDelegation(ctx sdk.Context, avsAddr string) (s
 	return sdkmath.LegacyNewDec(int64(avsInfo.Info.MinSelfDelegation)), nil
 }
 
+// GetStoredAVSAddress returns the AVS address in exactly the spelling under which the AVS is
+// registered (AVSInfo.AvsAddress). The registry is keyed by the address bytes, so callers may
+// supply any letter case; modules which key their own state by the address string (x/operator)
+// must use the stored spelling, which is also the one returned by GetEpochEndAVSs.
+func (k *Keeper) GetStoredAVSAddress(ctx sdk.Context, avsAddr string) (string, error) {
+	if !common.IsHexAddress(avsAddr) {
+		return "", errorsmod.Wrap(types.ErrInvalidAddr, fmt.Sprintf("GetStoredAVSAddress: key is %s", avsAddr))
+	}
+	avsInfo, err := k.GetAVSInfo(ctx, avsAddr)
+	if err != nil {
+		return "", errorsmod.Wrap(err, fmt.Sprintf("GetStoredAVSAddress: key is %s", avsAddr))
+	}
+	return avsInfo.Info.AvsAddress, nil
+}
+
 // GetEpochEndAVSs returns a list of hex AVS addresses for AVSs which are scheduled to start at the end of the
 // current epoch, or the beginning of the next one. The address format returned is hex.
 func (k *Keeper) GetEpochEndAVSs(ctx sdk.Context, epochIdentifier string, endingEpochNumber int64) []string {
